@@ -160,7 +160,15 @@ class Scenario:
     def call(self, ov, call):
         # through the function object users hold (ov.dispatch), like f(...)
         self.ns["BUDGET"][0] = self.budget
-        return self.ob.call(ov if self.via == "object" else ov.dispatch, call, resolve=False)
+        target = ov if self.via == "object" else ov.dispatch
+        if self.world.get("peek"):
+            # the caller looks at the function's signature first - what a Callable[[...], ...] annotation of another
+            # function does with an overloaded function passed to it, on every call (dependent.Callable ->
+            # Signature.extract -> LazySignature.parameters -> Ovld.analyze_arguments)
+            import inspect
+
+            inspect.signature(ov.dispatch).parameters
+        return self.ob.call(target, call, resolve=False)
 
 
 # ---------------------------------------------------------------------------
